@@ -150,39 +150,62 @@ def applyWillOcc (s : UInt32 × Publish) (o : PropOcc) : UInt32 × Publish :=
   | .pair k v => if o.id = 0x26 then (s.1, { s.2 with userProps := s.2.userProps ++ [(k, v)] }) else s
   | _ => s
 
+/-! `UnmarshalBinary` in stages, each a run of statements of the Go function acting on the
+cursor and the packet. -/
+
+/-- `get(&p.protocolName); get(&p.protocolVersion); get(&p.flags); get(&p.keepAlive)` -/
+def readHead (p : Connect) (b : Buf) : Buf × Connect :=
+  let r1 := b.get (decBin p.protocolName) p.protocolName
+  let r2 := r1.1.get decU8 p.protocolVersion
+  let r3 := r2.1.get decU8 p.flags
+  let r4 := r3.1.get decU16 p.keepAlive
+  (r4.1, { p with protocolName := r1.2, protocolVersion := r2.2, flags := r3.2, keepAlive := r4.2 })
+
+/-- `buf.getAny(p.propertyMap(), p.appendUserProperty)` -/
+def readProps (p : Connect) (b : Buf) : Buf × Connect :=
+  let r := b.getAny table (lastBin p.binInit)
+  (r.1, r.2.foldl applyOcc p)
+
+/-- `get(&p.clientID)` -/
+def readClientID (p : Connect) (b : Buf) : Buf × Connect :=
+  let r := b.get (decBin p.clientID) p.clientID
+  (r.1, { p with clientID := r.2 })
+
+/-- the will section: `p.will = NewPublish(); SetQoS; SetRetain; getAny(willPropertyMap);
+get(&p.will.topicName); get(&p.willPayload); p.will.payload = p.willPayload` -/
+def readWill (p : Connect) (b : Buf) : Buf × Connect :=
+  if has p.flags fWillFlag then
+    let w := (Publish.new.setQoS p.willQoS).setRetain (has p.flags fWillRetain)
+    let r1 := b.getAny willTable (lastBin fun _ => [])
+    let s := r1.2.foldl applyWillOcc (p.willDelayInterval, w)
+    let r2 := r1.1.get (decBin []) []
+    let r3 := r2.1.get (decBin p.willPayload) p.willPayload
+    (r3.1, { p with willDelayInterval := s.1, willPayload := r3.2,
+                    will := some { s.2 with topicName := r2.2, payload := r3.2 } })
+  else (b, p)
+
+/-- `if p.flags.Has(UsernameFlag) { get(&p.username) }` -/
+def readUsername (p : Connect) (b : Buf) : Buf × Connect :=
+  if has p.flags fUsername then
+    let r := b.get (decBin p.username) p.username
+    (r.1, { p with username := r.2 })
+  else (b, p)
+
+/-- `if p.flags.Has(PasswordFlag) { get(&p.password) }` -/
+def readPassword (p : Connect) (b : Buf) : Buf × Connect :=
+  if has p.flags fPassword then
+    let r := b.get (decBin p.password) p.password
+    (r.1, { p with password := r.2 })
+  else (b, p)
+
 def unmarshal (p : Connect) (data : Bytes) : Connect × St :=
-  let b : Buf := { rest := data }
-  let (b, pn) := b.get (decBin p.protocolName) p.protocolName
-  let (b, pv) := b.get decU8 p.protocolVersion
-  let (b, fl) := b.get decU8 p.flags
-  let (b, ka) := b.get decU16 p.keepAlive
-  let p := { p with protocolName := pn, protocolVersion := pv, flags := fl, keepAlive := ka }
-  let (b, occs) := b.getAny table (lastBin p.binInit)
-  let p := occs.foldl applyOcc p
-  let (b, cid) := b.get (decBin p.clientID) p.clientID
-  let p := { p with clientID := cid }
-  let (b, p) :=
-    if has p.flags fWillFlag then
-      -- p.will = NewPublish(); SetQoS(willQoS()); SetRetain(flags.Has(WillRetain))
-      let w := (Publish.new.setQoS p.willQoS).setRetain (has p.flags fWillRetain)
-      let (b, woccs) := b.getAny willTable (lastBin fun _ => [])
-      let (wdi, w) := woccs.foldl applyWillOcc (p.willDelayInterval, w)
-      let (b, topic) := b.get (decBin []) []
-      let (b, wp) := b.get (decBin p.willPayload) p.willPayload
-      (b, { p with willDelayInterval := wdi, willPayload := wp,
-                   will := some { w with topicName := topic, payload := wp } })
-    else (b, p)
-  let (b, p) :=
-    if has p.flags fUsername then
-      let (b, u) := b.get (decBin p.username) p.username
-      (b, { p with username := u })
-    else (b, p)
-  let (b, p) :=
-    if has p.flags fPassword then
-      let (b, pw) := b.get (decBin p.password) p.password
-      (b, { p with password := pw })
-    else (b, p)
-  (p, b.st)
+  let s1 := p.readHead { rest := data }
+  let s2 := s1.2.readProps s1.1
+  let s3 := s2.2.readClientID s2.1
+  let s4 := s3.2.readWill s3.1
+  let s5 := s4.2.readUsername s4.1
+  let s6 := s5.2.readPassword s5.1
+  (s6.2, s6.1.st)
 
 def view (p : Connect) : View :=
   [("AuthData", .s p.authData), ("AuthMethod", .s p.authMethod),
